@@ -31,6 +31,12 @@ def handle (j : Json) : R (List (String × Json)) := do
     -- and replay specifications do not model; the partition specification (ids, counts, places) applies unchanged
     let clustered := match spJ.getObjVal? "clustering" with | .ok v => !v.isNull | .error _ => false
     -- what an operator history ends in: partition only (pins and relation exemptions of histories are judged by C04)
+    -- solves seeded with an initial solution that leaves a relation job unassigned: partition only as well
+    if (fldD j "k" Json.null) == Json.str "init" then
+      return [("model", Json.null),
+              ("oracle", Json.mkObj [("partition", Json.bool pa.isEmpty)]),
+              ("info", Json.mkObj [("operator_history", Json.bool true), ("seeded_with_initial_solution", Json.bool true), ("partition", strs pa),
+                                   ("tours", jNat s.tours.length), ("unassigned", jNat s.unassigned.length)])]
     let ophist := (fldD j "k" Json.null) == Json.str "ophist"
     if ophist then
       -- every solution of the history (one per step), not only the last one
